@@ -91,6 +91,21 @@ def run_json(ctx, prop):
                 v["key"] = "%s|deep|%s|%d|%s|%s|%d" % (prop, rec["shape"], rec["n"], rec["closed"], rec["entry"], rec["limit"])
                 violations.append(v)
     cov["deep_documents"] = len(brecs)
+    # wide documents (hundreds to 10^5.. elements, damage only after the last one): run-length form, TraceWide.tla
+    wtf = os.path.join(ctx.scratch, "wide.ndjson")
+    wrp = os.path.join(ctx.scratch, "wide.json")
+    ctx.vdrive(["wide", "-trace", wtf, "-out", wrp] + ([] if quick else ["-big"]), timeout=3000)
+    wrecs = [json.loads(x) for x in open(wtf)]
+    for r in ctx.validate_traces("TraceWide.tla", "TraceWide.cfg", [wtf]):
+        for t in r["tuples"]:
+            if t[0] == "VIOLATION" and t[1] == prop:
+                rec = wrecs[t[2] - 1]
+                v = dict(property=prop, kind="wide-document", limit=rec["limit"], record=rec,
+                         input_text="shape=%s elements=%d tail=%s entry=%s" % (rec["shape"], rec["n"], rec["tail"], rec["entry"]),
+                         detail="TraceWide.tla: %s; class reported %r (%s)" % (t[3] if len(t) > 3 else "", rec["cls"], rec.get("mime")))
+                v["key"] = "%s|wide|%s|%d|%s|%s|%d" % (prop, rec["shape"], rec["n"], rec["tail"], rec["entry"], rec["limit"])
+                violations.append(v)
+    cov["wide_documents"] = len(wrecs)
     nvec = rep["violation_counts"].get(prop, 0)
     cov.update(
         evaluations=rep["evaluations"] + trep["evaluations"],
